@@ -39,7 +39,7 @@ ASSUMPTIONS = [
 ]
 LEVEL_TEXT = "Random exploration; every generated command is really executed by bash with only the stubs reachable."
 LEVEL_NOTE = "bash, the stub scripts, the reference curl argv model"
-QUICK_N = 14_000
+QUICK_N = 10_000
 THOROUGH_N = 400_000
 BUDGET_S = (300, 7200)
 
@@ -426,7 +426,7 @@ def _shell_ok(tool, rc, err, calls, left, ctx, desc):
         # body text starting with '-' is taken as a printf option
         ctx.fail("%s:printf-leading-dash-taken-as-option" % ("curl-body" if tool == "curl" else "httpie-stdin"),
                  desc + " stderr=%r" % (err[:200],))
-    elif rc == 0 and err and all(b": printf: " in l for l in err.splitlines() if l):
+    elif rc == 0 and err and all((b": printf: " in l or b"command substitution: ignored null byte" in l) for l in err.splitlines() if l):
         # bash complains about the body text used as printf format: same root cause as the body mismatch, argv still usable
         ctx.fail("%s:printf-interprets-percent-or-backslash" % ("curl-body" if tool == "curl" else "httpie-stdin"),
                  desc + " stderr=%r" % (err[:200],))
